@@ -113,7 +113,7 @@ class DBGen:
             n = 1 if self.rng.random() < 0.7 else min(len(free), 2)
             tabs = self.rng.sample(free, n)
         req = list(tabs)
-        if self.rng.random() < 0.15:
+        if req and self.rng.random() < 0.15:
             req = req + [self.rng.choice(req)]     # duplicates are allowed
             self.rng.shuffle(req)
         self.ntx += 1
@@ -928,7 +928,21 @@ def gen_c01_dense(rng, mode):
     s0 = g.commit(tx)
     observe(g.snap_src(s0))
     snaps.append(s0)
+    # a write transaction over NO table, open while others commit, committed or aborted later: it publishes nothing
+    empty = None
     for _ in range(rng.randint(3, 6)):
+        if empty is None and rng.random() < 0.3:
+            empty = g.begin([])
+        elif empty not in (None, False) and rng.random() < 0.5:
+            if rng.random() < 0.8:
+                se = g.commit(empty)
+                observe(g.snap_src(se))
+                snaps.append(se)
+            else:
+                g.abort(empty)
+            empty = False
+            for s in snaps:
+                observe(g.snap_src(s))
         tx = g.begin([t])
         now = set(live)
         parents = [k for k in now if any(len(c) > len(k) and c[:len(k)] == k for c in now)]
@@ -1128,7 +1142,58 @@ def gen_dbfan(rng, mode):
     return g.finish()
 
 
+def gen_c06_fan(rng, mode):
+    """Watch channels on wide inner nodes of the index trees: a key K with 15..18 or 47..50 extensions (the node kind
+    thresholds), watchers on Prefix(K), on Get of an absent extension and on the extensions themselves; one extension
+    is deleted (the node shrinks, possibly into a smaller node kind), later the absent one is inserted."""
+    g = DBGen(rng, mode)
+    g.add(op="config", nilempty=False)
+    t = g.newtable()
+    g.watch_budget = 200
+    K = rng.choice([[97], [0], [97, 98]])
+    n = rng.choice([15, 16, 17, 17, 18, 47, 48, 49, 49, 50])
+    nexts = sorted(rng.sample(range(1, 255), n))
+    kids = [K + [b] for b in nexts]
+    absent = K + [rng.choice([b for b in range(1, 255) if b not in nexts])]
+
+    def obj(pk):
+        return dict(pk=pk, val=rng.randint(1, 9), hasU=False, u=[], tags=[], pfx=[], hasUp=False, upfx=[])
+
+    tx = g.begin([t])
+    g.add(op="insert", tx=tx, t=t, obj=obj([K[0] + 1]), guard=0, gsym="", w=0)     # keeps K's node off the root
+    if rng.random() < 0.7:
+        g.add(op="insert", tx=tx, t=t, obj=obj(K), guard=0, gsym="", w=0)
+    for k in kids:
+        g.add(op="insert", tx=tx, t=t, obj=obj(k), guard=0, gsym="", w=0)
+    g.commit(tx)
+
+    def watches():
+        s = g.snap()
+        src = g.snap_src(s)
+        g.q(src, t, "id", "prefix", K, watch=True)
+        g.q(src, t, "id", "get", absent, watch=True)
+        g.q(src, t, "id", "list", absent, watch=True)
+        g.q(src, t, "id", "get", kids[0], watch=True)
+        g.q(src, t, "id", "prefix", K[:-1], watch=True)
+
+    watches()
+    victim = rng.choice([kids[0], kids[n // 2], kids[-1]])
+    tx = g.begin([t])
+    g.add(op="delete", tx=tx, t=t, obj=obj(victim), guard=0, gsym="", w=0)
+    g.commit(tx)
+    g.chans()
+    watches()
+    tx = g.begin([t])
+    g.add(op="insert", tx=tx, t=t, obj=obj(absent), guard=0, gsym="", w=0)
+    if rng.random() < 0.5:
+        g.add(op="delete", tx=tx, t=t, obj=obj(kids[1]), guard=0, gsym="", w=0)
+    g.commit(tx)
+    g.chans()
+    return g.finish()
+
+
 MODES = {
+    "c06fan": gen_c06_fan,
     "dbfan": gen_dbfan,
     "derive": gen_derive,
     "c01dense": gen_c01_dense, "c02dense": gen_c01_dense,
